@@ -196,7 +196,8 @@ T_map  == "soundevent_metrics:meanAveragePrecision"
 T_jac  == "soundevent_metrics:jaccard"
 \* rows <<term name, metric function>>; levels: run (Evaluation), clip (ClipEvaluation), ev (Match)
 \* sound_event_classification as found labelled all three run metrics Balanced Accuracy
-\* (spec/history/Metrics_sec_asfound.tla, MC_Metrics_asfound.cfg); this is the table after the fix.
+\* (SecRunFound; TableVariant = "found" in history/MC_Metrics_asfound_terms.cfg makes TLC refute LawDistinctTerms,
+\* counterexample in history/MC_Metrics_asfound.txt); SecRunFixed is the table after the fix.
 SecRunFixed == <<<<T_bacc, "bacc">>, <<T_acc, "acc">>, <<T_top3, "top3">>>>
 SecRunFound == <<<<T_bacc, "bacc">>, <<T_bacc, "acc">>, <<T_bacc, "top3">>>>
 Table(task, variant) ==
